@@ -87,7 +87,9 @@ func SizeText(s uint64, pretty bool, sep string) string {
 }
 
 // TextSize is the documented text grammar of a size:
-//   sp* digit (sep* digit)* (sep* unit)? sp*       sep = ' ' | NBSP (U+00A0) | '_'
+//
+//	sp* digit (sep* digit)* (sep* unit)? sp*       sep = ' ' | NBSP (U+00A0) | '_'
+//
 // It returns: inGrammar (the text has that shape with a unit token free of
 // separators and spaces), and the digits / unit found. Texts outside the grammar
 // are a don't-care for acceptance.
